@@ -7,7 +7,8 @@ package main
 // amounts beyond 2^53 (or 2^64 for a default big.Float): the content read back differs from the content
 // hashed, or the committed posting differs from the requested one.
 //
-// A plain float32/float64 value is reported only in a function that also handles an amount-carrying type
+// A float that is merely held (a case of a type switch over a decoded `any`) is not reported: only floats that
+// are computed with, or converted from or to another numeric type. A plain float32/float64 value is reported only in a function that also handles an amount-carrying type
 // (math/big.Int, machine.MonetaryInt, json.Number): a float used to pad an error message is not content.
 // big.Float and the float parsers are always reported.
 //
@@ -99,7 +100,22 @@ func ruleExactAmounts(c *Ctx, rule string) {
 					continue
 				}
 				if v, ok := ins.(ssa.Value); ok && isFloatType(v.Type(), 0) {
-					first, what = ins, "a value of type "+v.Type().String()
+					if isBigFloat(v.Type()) {
+						first, what = ins, "a value of type "+v.Type().String()
+						continue
+					}
+					// a float that is merely held (type switch on a decoded `any`) loses nothing; a float that is
+					// computed with or converted from/to an integer does
+					switch x := ins.(type) {
+					case *ssa.Convert:
+						first, what = ins, "a value of type float converted from "+x.X.Type().String()
+					case *ssa.BinOp:
+						first, what = ins, "a value of type float computed with "+x.Op.String()
+					}
+					continue
+				}
+				if cv, ok := ins.(*ssa.Convert); ok && isFloatType(cv.X.Type(), 0) {
+					first, what = ins, "a value of type float converted to "+cv.Type().String()
 					continue
 				}
 				if call, ok := ins.(ssa.CallInstruction); ok {
@@ -160,4 +176,14 @@ func touchesAmounts(fn *ssa.Function) bool {
 		}
 	}
 	return false
+}
+
+func isBigFloat(t types.Type) bool {
+	for i := 0; i < 3; i++ {
+		if p, ok := t.(*types.Pointer); ok {
+			t = p.Elem()
+		}
+	}
+	n, ok := t.(*types.Named)
+	return ok && n.Obj().Pkg() != nil && n.Obj().Pkg().Path() == "math/big" && n.Obj().Name() == "Float"
 }
